@@ -1,5 +1,205 @@
 package main
 
-import "github.com/anishathalye/porcupine"
+import (
+	"fmt"
+	"sort"
+	"time"
 
-var _ = porcupine.Ok
+	"github.com/anishathalye/porcupine"
+)
+
+type regIn struct {
+	Write bool
+	Val   string
+}
+
+var registerModel = porcupine.Model{
+	Init: func() interface{} { return "" },
+	Step: func(state, input, output interface{}) (bool, interface{}) {
+		in := input.(regIn)
+		if in.Write {
+			return true, in.Val
+		}
+		return output.(string) == state.(string), state
+	},
+	DescribeOperation: func(input, output interface{}) string {
+		in := input.(regIn)
+		if in.Write {
+			return fmt.Sprintf("write(%s)", in.Val)
+		}
+		return fmt.Sprintf("read() -> %v", output)
+	},
+}
+
+// checkRegisters runs porcupine over the "reg" events, one partition per (case, key).
+func checkRegisters(res *Result, prop, class string) {
+	parts := map[string][]porcupine.Operation{}
+	for _, e := range res.Events {
+		if e["k"] != "reg" {
+			continue
+		}
+		cas, _ := e["case"].(string)
+		key, _ := e["key"].(string)
+		child, _ := e["child"].(string)
+		w, _ := e["w"].(bool)
+		val, _ := e["val"].(string)
+		call, _ := e["call"].(float64)
+		ret, _ := e["ret"].(float64)
+		c, _ := e["c"].(float64)
+		pk := child + "|" + cas + "|" + key
+		parts[pk] = append(parts[pk], porcupine.Operation{ClientId: int(c), Input: regIn{Write: w, Val: val}, Call: int64(call), Output: val, Return: int64(ret)})
+	}
+	keys := make([]string, 0, len(parts))
+	for k := range parts {
+		keys = append(keys, k)
+	}
+	sort.Strings(keys)
+	ok, illegal, unknown, ops := 0, 0, 0, 0
+	for _, k := range keys {
+		h := parts[k]
+		ops += len(h)
+		r, info := porcupine.CheckOperationsVerbose(registerModel, h, 60*time.Second)
+		switch r {
+		case porcupine.Ok:
+			ok++
+		case porcupine.Illegal:
+			illegal++
+			_ = info
+			res.Viols = append(res.Viols, Viol{Prop: prop, Class: class, Case: caseOfKey(k),
+				Msg: fmt.Sprintf("history of register %s (%d operations) is not linearizable", k, len(h)),
+				Raw: map[string]any{"partition": k, "operations": describeOps(h)}})
+		default:
+			unknown++
+			res.Inconclusive = append(res.Inconclusive, map[string]any{"t": "inconclusive", "why": "porcupine-unknown", "partition": k})
+		}
+	}
+	res.Stats["porcupine_partitions_ok"] += int64(ok)
+	res.Stats["porcupine_partitions_illegal"] += int64(illegal)
+	res.Stats["porcupine_partitions_unknown"] += int64(unknown)
+	res.Stats["porcupine_operations"] += int64(ops)
+}
+
+func caseOfKey(k string) string {
+	// child|case|key
+	n := 0
+	start := 0
+	for i := 0; i < len(k); i++ {
+		if k[i] == '|' {
+			n++
+			if n == 1 {
+				start = i + 1
+			}
+			if n == 2 {
+				return k[start:i]
+			}
+		}
+	}
+	return ""
+}
+
+func describeOps(h []porcupine.Operation) []string {
+	var r []string
+	for _, o := range h {
+		r = append(r, fmt.Sprintf("c%d [%d,%d] %s", o.ClientId, o.Call, o.Return, registerModel.DescribeOperation(o.Input, o.Output)))
+	}
+	return r
+}
+
+type nsIn struct {
+	Assert   bool
+	Implicit bool // an operation that asserts the expansion as a side effect; the prefix is not observed
+}
+
+type nsOut struct {
+	Prefix string
+	Ok     bool
+}
+
+// "unset, or set once forever" per expansion.
+var nsModel = porcupine.Model{
+	Init: func() interface{} { return "" },
+	Step: func(state, input, output interface{}) (bool, interface{}) {
+		st := state.(string)
+		in := input.(nsIn)
+		out := output.(nsOut)
+		// state: "" = unset, "?" = set by an implicit assert (prefix not yet observed), else the prefix
+		if in.Implicit {
+			if st == "" {
+				return true, "?"
+			}
+			return true, st
+		}
+		if in.Assert {
+			if !out.Ok || out.Prefix == "" {
+				return false, st
+			}
+			if st == "" || st == "?" {
+				return true, out.Prefix
+			}
+			return out.Prefix == st, st
+		}
+		if !out.Ok {
+			return st == "", st
+		}
+		if st == "?" {
+			return out.Prefix != "", out.Prefix
+		}
+		return out.Prefix == st && st != "", st
+	},
+	DescribeOperation: func(input, output interface{}) string {
+		in := input.(nsIn)
+		out := output.(nsOut)
+		if in.Implicit {
+			return "implicit-assert"
+		}
+		if in.Assert {
+			return fmt.Sprintf("assert -> %s", out.Prefix)
+		}
+		return fmt.Sprintf("lookup -> %s,%v", out.Prefix, out.Ok)
+	},
+}
+
+func checkNamespaces(res *Result, prop string) {
+	parts := map[string][]porcupine.Operation{}
+	for _, e := range res.Events {
+		if e["k"] != "ns" {
+			continue
+		}
+		cas, _ := e["case"].(string)
+		key, _ := e["key"].(string)
+		child, _ := e["child"].(string)
+		op, _ := e["op"].(string)
+		val, _ := e["val"].(string)
+		ok, _ := e["ok"].(bool)
+		call, _ := e["call"].(float64)
+		ret, _ := e["ret"].(float64)
+		c, _ := e["c"].(float64)
+		pk := child + "|" + cas + "|" + key
+		parts[pk] = append(parts[pk], porcupine.Operation{ClientId: int(c), Input: nsIn{Assert: op == "assert", Implicit: op == "implicit"}, Call: int64(call), Output: nsOut{Prefix: val, Ok: ok}, Return: int64(ret)})
+	}
+	keys := make([]string, 0, len(parts))
+	for k := range parts {
+		keys = append(keys, k)
+	}
+	sort.Strings(keys)
+	for _, k := range keys {
+		h := parts[k]
+		res.Stats["porcupine_operations"] += int64(len(h))
+		r, _ := porcupine.CheckOperationsVerbose(nsModel, h, 60*time.Second)
+		switch r {
+		case porcupine.Ok:
+			res.Stats["porcupine_partitions_ok"]++
+		case porcupine.Illegal:
+			res.Stats["porcupine_partitions_illegal"]++
+			var d []string
+			for _, o := range h {
+				d = append(d, fmt.Sprintf("c%d [%d,%d] %s", o.ClientId, o.Call, o.Return, nsModel.DescribeOperation(o.Input, o.Output)))
+			}
+			res.Viols = append(res.Viols, Viol{Prop: prop, Class: "namespace-history-not-linearizable", Case: caseOfKey(k),
+				Msg: fmt.Sprintf("assert/lookup history of expansion %s is not explained by 'unset, or set once forever'", k), Raw: map[string]any{"partition": k, "operations": d}})
+		default:
+			res.Stats["porcupine_partitions_unknown"]++
+			res.Inconclusive = append(res.Inconclusive, map[string]any{"t": "inconclusive", "why": "porcupine-unknown", "partition": k})
+		}
+	}
+}
